@@ -7,6 +7,7 @@ Local Open Scope Z_scope.
 
 Section NetProofs.
 Variable nstate : Type.
+Variable nodes : nat.
 Variable ndev : nat -> nat.
 Variable addr : nstate -> nat -> Z.
 Variable name : nat -> nat -> Z.
@@ -14,31 +15,38 @@ Variable good : nat -> nstate -> Prop.
 Variable react : nat -> nstate -> claim -> nstate * list claim.
 Variable spont : nat -> nstate -> cause -> nstate * list claim.
 Variable allowed : nat -> nstate -> cause -> Prop.
-Hypothesis H : node_hyps nstate ndev addr name good react spont allowed.
+Hypothesis H : node_hyps nstate nodes ndev addr name good react spont allowed.
 
-Notation Inv := (pairwise_cover nstate ndev addr name good).
-Notation vdev := (valid_dev ndev).
-Notation own := (own_name ndev name).
+Notation Inv := (pairwise_cover nstate nodes ndev addr name good).
+Notation vdev := (valid_dev nodes ndev).
+Notation own := (own_name nodes ndev name).
 
-Let Hnames : names_distinct ndev name. Proof. apply H. Qed.
-Let HR1 : R1 nstate ndev addr name good react. Proof. apply H. Qed.
-Let HR2 : R2 nstate ndev addr name good react. Proof. apply H. Qed.
-Let HR3 : R3 nstate ndev addr name good react. Proof. apply H. Qed.
-Let HR4 : R4 nstate ndev addr name good react. Proof. apply H. Qed.
-Let HR5 : R5 nstate ndev addr name good react. Proof. apply H. Qed.
-Let Hrown : react_own nstate ndev addr name good react. Proof. apply H. Qed.
-Let HS2 : S2 nstate ndev addr name good spont allowed. Proof. apply H. Qed.
-Let HS5 : S5 nstate ndev addr good spont allowed. Proof. apply H. Qed.
-Let Hsown : spont_own nstate ndev addr name good spont allowed. Proof. apply H. Qed.
+Let Hnames : names_distinct nodes ndev name. Proof. apply H. Qed.
+Let HR1 : R1 nstate nodes ndev addr name good react. Proof. apply H. Qed.
+Let HR2 : R2 nstate nodes ndev addr name good react. Proof. apply H. Qed.
+Let HR3 : R3 nstate nodes ndev addr name good react. Proof. apply H. Qed.
+Let HR4 : R4 nstate nodes ndev addr name good react. Proof. apply H. Qed.
+Let HR5 : R5 nstate nodes ndev addr name good react. Proof. apply H. Qed.
+Let Hrown : react_own nstate nodes ndev addr name good react. Proof. apply H. Qed.
+Let HS2 : S2 nstate nodes ndev addr name good spont allowed. Proof. apply H. Qed.
+Let HS5 : S5 nstate nodes ndev addr good spont allowed. Proof. apply H. Qed.
+Let Hsown : spont_own nstate nodes ndev addr name good spont allowed. Proof. apply H. Qed.
 
 Lemma upd_same {A} (f:nat -> A) p v : upd f p v p = v.
 Proof. unfold upd. now rewrite Nat.eqb_refl. Qed.
 Lemma upd_other {A} (f:nat -> A) p q v : q <> p -> upd f p v q = f q.
 Proof. unfold upd. intros E. apply Nat.eqb_neq in E. now rewrite E. Qed.
-Lemma bcast_same ib p out : bcast ib p out p = ib p.
+Lemma bcast_same ib p out : bcast nodes ib p out p = ib p.
 Proof. unfold bcast. now rewrite Nat.eqb_refl. Qed.
-Lemma bcast_other ib p q out : q <> p -> bcast ib p out q = ib q ++ out.
-Proof. unfold bcast. intros E. apply Nat.eqb_neq in E. now rewrite E. Qed.
+Lemma bcast_other ib p q out : q <> p -> (q < nodes)%nat -> bcast nodes ib p out q = ib q ++ out.
+Proof. unfold bcast. intros E L. apply Nat.eqb_neq in E. apply Nat.ltb_lt in L. now rewrite E, L. Qed.
+Lemma bcast_sub ib p q out d : In d (bcast nodes ib p out q) -> In d (ib q) \/ (q <> p /\ In d out).
+Proof.
+  unfold bcast. destruct (Nat.eqb_spec q p) as [->|N]; cbn [orb]; [auto|]. destruct (negb (q <? nodes)%nat); [auto|].
+  intros Hd. apply in_app_or in Hd as [Hd|Hd]; auto.
+Qed.
+Lemma bcast_sup ib p q out d : In d (ib q) -> In d (bcast nodes ib p out q).
+Proof. unfold bcast. destruct (Nat.eqb q p || negb (q <? nodes)%nat); [auto|]. intros Hd. apply in_or_app. left. exact Hd. Qed.
 
 Lemma in_remove_other (c d:claim) l1 l2 : In d (l1 ++ c :: l2) -> d <> c -> In d (l1 ++ l2).
 Proof. rewrite !in_app_iff. simpl. intuition congruence. Qed.
@@ -53,10 +61,10 @@ Proof.
   intros (_ & I2 & _) Hin (k & Hk & E). destruct (I2 i c Hin) as (j & Hji & l & Hl & E2).
   destruct (Hnames i k j l Hk Hl) as [E3 _]; congruence.
 Qed.
-Lemma pre_of w i c : Inv w -> In c (inbox nstate w i) -> pre nstate ndev addr name good i (st nstate w i) c.
+Lemma pre_of w i c : (i < nodes)%nat -> Inv w -> In c (inbox nstate w i) -> pre nstate nodes ndev addr name good i (st nstate w i) c.
 Proof.
-  intros HI Hin. pose proof (pending_foreign w i c HI Hin) as Hf. destruct HI as (I1 & _ & _). destruct (I1 i) as [G S].
-  unfold pre. split; [exact G|split; [exact S|exact Hf]].
+  intros Hi HI Hin. pose proof (pending_foreign w i c HI Hin) as Hf. destruct HI as (I1 & _ & _). destruct (I1 i) as [G S].
+  unfold pre. split; [exact Hi|split; [exact G|split; [exact S|exact Hf]]].
 Qed.
 
 (* node p handles c; device (q,l) of another node shares the (new) address of device (p,k) *)
@@ -68,7 +76,7 @@ Lemma deliver_cover w p q k l c l1 l2 :
 Proof.
   intros HI Hqp Hk Hl Hib s' out Heq Hop.
   assert (Hin: In c (inbox nstate w p)) by (rewrite Hib; apply in_or_app; right; left; reflexivity).
-  pose proof (pre_of w p c HI Hin) as Hpre.
+  pose proof (pre_of w p c (proj1 Hk) HI Hin) as Hpre.
   destruct (Z.eq_dec (addr s' k) (addr (st nstate w p) k)) as [Same|Changed].
   - destruct HI as (I1 & I2 & I3).
     assert (Hpq: p <> q) by congruence.
@@ -90,63 +98,59 @@ Proof.
   - left. apply in_or_app. right. apply (HR2 p (st nstate w p) c k Hpre Hk Changed Hop).
 Qed.
 
-Theorem step_inv w w' : Inv w -> step nstate react spont allowed w w' -> Inv w'.
+Theorem step_inv w w' : Inv w -> step nstate nodes react spont allowed w w' -> Inv w'.
 Proof.
-  intros HI Hs. destruct Hs as [p c l1 l2 w Hib | p a w Hal].
+  intros HI Hs. destruct Hs as [p c l1 l2 w Hp Hib | p a w Hp Hal].
   - (* delivery *)
     assert (Hin: In c (inbox nstate w p)) by (rewrite Hib; apply in_or_app; right; left; reflexivity).
-    pose proof (pre_of w p c HI Hin) as Hpre.
+    pose proof (pre_of w p c Hp HI Hin) as Hpre.
     pose proof HI as (I1 & I2 & I3).
     split; [|split]; cbn [st inbox].
     + intros i. destruct (Nat.eq_dec i p) as [->|Hip].
       * rewrite upd_same. apply HR5; exact Hpre.
       * rewrite upd_other by exact Hip. apply I1.
-    + intros i d Hd. destruct (Nat.eq_dec i p) as [->|Hip].
-      * rewrite bcast_same, upd_same in Hd. apply (I2 p d). rewrite Hib. apply in_app_or in Hd. apply in_or_app. destruct Hd; [left|right; right]; assumption.
-      * rewrite bcast_other, upd_other in Hd by exact Hip. apply in_app_or in Hd as [Hd|Hd].
-        -- apply I2; exact Hd.
-        -- exists p. split; [congruence|]. apply (Hrown p (st nstate w p) c d Hpre Hd).
-    + intros a b k l Hab Hk Hl Heq Hop.
+    + intros i d Hd. apply bcast_sub in Hd as [Hd|[Hip Hd]].
+      * destruct (Nat.eq_dec i p) as [->|Hip].
+        -- rewrite upd_same in Hd. apply (I2 p d). rewrite Hib. apply in_app_or in Hd. apply in_or_app. destruct Hd; [left|right; right]; assumption.
+        -- rewrite upd_other in Hd by exact Hip. apply I2; exact Hd.
+      * exists p. split; [congruence|]. apply (Hrown p (st nstate w p) c d Hpre Hd).
+    + intros a b k l Hab Hk Hl Heq Hop. pose proof Hk as [Ha _]. pose proof Hl as [Hb _].
       destruct (Nat.eq_dec a p) as [->|Hap]; [|destruct (Nat.eq_dec b p) as [->|Hbp]].
       * rewrite upd_same in *. rewrite (upd_other _ _ b) in * by congruence.
-        rewrite bcast_same, upd_same. rewrite (bcast_other _ _ b), (upd_other _ _ b) by congruence.
+        rewrite bcast_same, upd_same. rewrite (bcast_other _ _ b) by (try congruence; exact Hb). rewrite (upd_other _ _ b) by congruence.
         apply (deliver_cover w p b k l c l1 l2 HI); auto.
       * rewrite upd_same in *. rewrite (upd_other _ _ a) in * by congruence.
-        rewrite bcast_same, upd_same. rewrite (bcast_other _ _ a), (upd_other _ _ a) by congruence.
+        rewrite bcast_same, upd_same. rewrite (bcast_other _ _ a) by (try congruence; exact Ha). rewrite (upd_other _ _ a) by congruence.
         rewrite Heq in *.
         destruct (deliver_cover w p a l k c l1 l2 HI Hap Hl Hk Hib (eq_sym Heq) Hop) as [Hc|Hc]; [right|left]; exact Hc.
       * rewrite !(upd_other _ _ a) in * by congruence. rewrite !(upd_other _ _ b) in * by congruence.
-        rewrite (bcast_other _ _ a), (bcast_other _ _ b) by congruence. rewrite (upd_other _ _ a), (upd_other _ _ b) by congruence.
-        destruct (I3 a b k l Hab Hk Hl Heq Hop); [left|right]; apply in_or_app; left; assumption.
+        destruct (I3 a b k l Hab Hk Hl Heq Hop) as [Hc|Hc]; [left|right]; apply bcast_sup; rewrite upd_other by congruence; exact Hc.
   - (* the node acts on its own *)
     pose proof HI as (I1 & I2 & I3). destruct (I1 p) as [G1 G2].
     split; [|split]; cbn [st inbox].
     + intros i. destruct (Nat.eq_dec i p) as [->|Hip].
       * rewrite upd_same. apply HS5; assumption.
       * rewrite upd_other by exact Hip. apply I1.
-    + intros i d Hd. destruct (Nat.eq_dec i p) as [->|Hip].
-      * rewrite bcast_same in Hd. apply I2; exact Hd.
-      * rewrite bcast_other in Hd by exact Hip. apply in_app_or in Hd as [Hd|Hd].
-        -- apply I2; exact Hd.
-        -- exists p. split; [congruence|]. apply (Hsown p (st nstate w p) a d G1 G2 Hal Hd).
-    + intros x y k l Hxy Hk Hl Heq Hop.
+    + intros i d Hd. apply bcast_sub in Hd as [Hd|[Hip Hd]].
+      * apply I2; exact Hd.
+      * exists p. split; [congruence|]. apply (Hsown p (st nstate w p) a d Hp G1 G2 Hal Hd).
+    + intros x y k l Hxy Hk Hl Heq Hop. pose proof Hk as [Hx _]. pose proof Hl as [Hy _].
       destruct (Nat.eq_dec x p) as [->|Hxp]; [|destruct (Nat.eq_dec y p) as [->|Hyp]].
       * rewrite upd_same in *. rewrite (upd_other _ _ y) in * by congruence.
-        rewrite bcast_same. rewrite (bcast_other _ _ y) by congruence.
+        rewrite bcast_same. rewrite (bcast_other _ _ y) by (try congruence; exact Hy).
         destruct (Z.eq_dec (addr (fst (spont p (st nstate w p) a)) k) (addr (st nstate w p) k)) as [Same|Changed].
         -- rewrite Same in *. destruct (I3 p y k l Hxy Hk Hl Heq Hop); [left; apply in_or_app; left|right]; assumption.
-        -- left. apply in_or_app. right. apply (HS2 p (st nstate w p) a k G1 G2 Hal Hk Changed Hop).
+        -- left. apply in_or_app. right. apply (HS2 p (st nstate w p) a k Hp G1 G2 Hal Hk Changed Hop).
       * rewrite upd_same in *. rewrite (upd_other _ _ x) in * by congruence.
-        rewrite bcast_same. rewrite (bcast_other _ _ x) by congruence.
+        rewrite bcast_same. rewrite (bcast_other _ _ x) by (try congruence; exact Hx).
         destruct (Z.eq_dec (addr (fst (spont p (st nstate w p) a)) l) (addr (st nstate w p) l)) as [Same|Changed].
         -- rewrite Same in *. destruct (I3 x p k l Hxy Hk Hl Heq Hop); [left|right; apply in_or_app; left]; assumption.
-        -- right. apply in_or_app. right. rewrite Heq in *. apply (HS2 p (st nstate w p) a l G1 G2 Hal Hl Changed Hop).
+        -- right. apply in_or_app. right. rewrite Heq in *. apply (HS2 p (st nstate w p) a l Hp G1 G2 Hal Hl Changed Hop).
       * rewrite !(upd_other _ _ x) in * by congruence. rewrite !(upd_other _ _ y) in * by congruence.
-        rewrite (bcast_other _ _ x), (bcast_other _ _ y) by congruence.
-        destruct (I3 x y k l Hxy Hk Hl Heq Hop); [left|right]; apply in_or_app; left; assumption.
+        destruct (I3 x y k l Hxy Hk Hl Heq Hop) as [Hc|Hc]; [left|right]; apply bcast_sup; exact Hc.
 Qed.
 
-Lemma initial_inv w : initial nstate ndev addr good w -> Inv w.
+Lemma initial_inv w : initial nstate nodes ndev addr good w -> Inv w.
 Proof.
   intros (G & N & E). split; [|split].
   - intros i. split; [apply G|]. intros k l Hk _ _ Hop. exfalso. exact (N i k Hk Hop).
@@ -154,7 +158,7 @@ Proof.
   - intros i j k l _ Hk _ _ Hop. exfalso. exact (N i k Hk Hop).
 Qed.
 
-Theorem reachable_inv w0 w : initial nstate ndev addr good w0 -> steps nstate react spont allowed w0 w -> Inv w.
+Theorem reachable_inv w0 w : initial nstate nodes ndev addr good w0 -> steps nstate nodes react spont allowed w0 w -> Inv w.
 Proof. intros Hi Hs. induction Hs as [|w1 w2 w3 _ IH Hst]; [apply initial_inv; exact Hi|]. eapply step_inv; [apply IH; exact Hi|exact Hst]. Qed.
 
 Theorem inv_quiescent_unique w : Inv w -> quiescent nstate w ->
@@ -172,13 +176,13 @@ Theorem inv_lower_name_wins w i c l1 l2 k : Inv w -> inbox nstate w i = l1 ++ c 
 Proof.
   intros HI Hib Hk Hch.
   assert (Hin: In c (inbox nstate w i)) by (rewrite Hib; apply in_or_app; right; left; reflexivity).
-  pose proof (pre_of w i c HI Hin) as Hpre.
+  pose proof (pre_of w i c (proj1 Hk) HI Hin) as Hpre.
   destruct (Z.eq_dec (addr (st nstate w i) k) (cx c)) as [E|N]; [|exfalso; apply Hch; apply (HR4 i _ c k Hpre Hk); left; exact N].
   destruct (operational_dec (cx c)) as [Hop|Hnop]; [|exfalso; apply Hch; apply (HR4 i _ c k Hpre Hk); right; exact Hnop].
   split; [congruence|split; [exact Hop|]].
   destruct (Z.lt_trichotomy (name i k) (cn c)) as [Lt|[Eq|Gt]]; [| |exact Gt].
   - exfalso. apply Hch. apply (HR3 i _ c k Hpre Hk E Hop Lt).
-  - exfalso. destruct Hpre as (_ & _ & Hf). apply Hf. exists k. split; [exact Hk|congruence].
+  - exfalso. destruct Hpre as (_ & _ & _ & Hf). apply Hf. exists k. split; [exact Hk|congruence].
 Qed.
 End NetProofs.
 
@@ -196,3 +200,68 @@ Proof. unfold lower_name_wins_stmt. intros. eapply inv_lower_name_wins; eauto. Q
 Print Assumptions pairwise_cover_preserved.
 Print Assumptions quiescent_unique.
 Print Assumptions lower_name_wins.
+
+
+(* ---------- the hypotheses are satisfiable and runs exist: a toy network of two single-device nodes that both prefer address 30;
+              the loser gives up at once ---------- *)
+Definition toy_react (i:nat) (s:Z) (c:claim) : Z * list claim :=
+  if (s =? cx c) && (0 <=? cx c) && (cx c <=? 251) then
+    if cn c <? Z.of_nat i then (254, [])
+    else if Z.of_nat i <? cn c then (s, [{| cx := s; cn := Z.of_nat i |}]) else (s, [])
+  else (s, []).
+Definition toy_spont (i:nat) (s:Z) (a:cause) : Z * list claim :=
+  match a with CStart => (30, [{| cx := 30; cn := Z.of_nat i |}]) | _ => (s, []) end.
+Definition toy_ndev (i:nat) : nat := 1.
+Definition toy_addr (s:Z) (k:nat) : Z := s.
+Definition toy_name (i k:nat) : Z := Z.of_nat i.
+Definition toy_good (i:nat) (s:Z) : Prop := True.
+Definition toy_allowed (i:nat) (s:Z) (a:cause) : Prop := True.
+Lemma toy_ok : node_hyps Z 2 toy_ndev toy_addr toy_name toy_good toy_react toy_spont toy_allowed.
+Proof.
+  unfold node_hyps.
+  assert (Own: forall i, (i < 2)%nat -> own_name 2 toy_ndev toy_name i (Z.of_nat i)).
+  { intros i Hi. exists 0%nat. split; [split; [exact Hi|unfold toy_ndev; lia]|reflexivity]. }
+  split; [|split; [|split; [|split; [|split; [|split; [|split; [|split; [|split]]]]]]]].
+  - intros i k j l [Hi Hk] [Hj Hl] E. unfold toy_ndev, toy_name in *. split; lia.
+  - intros i s c k _ _ E Hop Lt. unfold toy_react, toy_addr, toy_name, operational in *.
+    rewrite E, Z.eqb_refl. destruct (Z.leb_spec 0 (cx c)); [|lia]. destruct (Z.leb_spec (cx c) 251); [|lia]. cbn [andb].
+    destruct (Z.ltb_spec (cn c) (Z.of_nat i)); [cbn [fst]; lia|lia].
+  - intros i s c k _ _ Hch Hop. exfalso. revert Hch Hop. unfold toy_react, toy_addr, operational.
+    destruct ((s =? cx c) && (0 <=? cx c) && (cx c <=? 251)); [|cbn [fst]; congruence].
+    destruct (cn c <? Z.of_nat i); [cbn [fst]; lia|]. destruct (Z.of_nat i <? cn c); cbn [fst]; congruence.
+  - intros i s c k _ _ E Hop Lt. unfold toy_react, toy_addr, toy_name, operational in *.
+    rewrite E, Z.eqb_refl. destruct (Z.leb_spec 0 (cx c)); [|lia]. destruct (Z.leb_spec (cx c) 251); [|lia]. cbn [andb].
+    destruct (Z.ltb_spec (cn c) (Z.of_nat i)); [lia|]. destruct (Z.ltb_spec (Z.of_nat i) (cn c)); [|lia]. cbn [fst snd]. split; [reflexivity|left; reflexivity].
+  - intros i s c k _ _ Hne. unfold toy_react, toy_addr, operational in *.
+    destruct (Z.eqb_spec s (cx c)) as [E|NE]; [|reflexivity]. destruct (Z.leb_spec 0 (cx c)); [|reflexivity]. destruct (Z.leb_spec (cx c) 251); [|reflexivity]. lia.
+  - intros i s c _. split; [exact I|]. intros k l [_ Hk] [_ Hl] Hkl. unfold toy_ndev in *. lia.
+  - intros i s c f (Hi & _) Hin. unfold toy_react in Hin.
+    destruct ((s =? cx c) && (0 <=? cx c) && (cx c <=? 251)); [|destruct Hin].
+    destruct (cn c <? Z.of_nat i); [destruct Hin|]. destruct (Z.of_nat i <? cn c); [|destruct Hin].
+    destruct Hin as [<-|[]]. cbn [cn]. apply Own; exact Hi.
+  - intros i s a k Hi _ _ _ _ Hch Hop. unfold toy_spont, toy_addr, toy_name in *. destruct a; cbn [fst snd] in *; try congruence. left. reflexivity.
+  - intros i s a _ _ _ _. split; [exact I|]. intros k l [_ Hk] [_ Hl] Hkl. unfold toy_ndev in *. lia.
+  - intros i s a f Hi _ _ _ Hin. unfold toy_spont in Hin. destruct a; cbn [snd] in Hin; try destruct Hin as [<-|[]]; try destruct Hin. cbn [cn]. apply Own; exact Hi.
+Qed.
+
+Lemma steps_first nstate nodes react spont allowed (w1 w2 w3:world nstate) :
+  step nstate nodes react spont allowed w1 w2 -> steps nstate nodes react spont allowed w2 w3 -> steps nstate nodes react spont allowed w1 w3.
+Proof. intros S1 S2. induction S2 as [|a b c _ IH Sb]; [eapply steps_step; [apply steps_refl|exact S1]|eapply steps_step; [apply IH; exact S1|exact Sb]]. Qed.
+
+Definition toy_w0 : world Z := {| st := fun _ => 254; inbox := fun _ => [] |}.
+(* both start, node 0 (lower NAME) defends, node 1 yields: nothing is pending any more, node 0 holds 30, node 1 has no address *)
+Lemma toy_run : exists w, initial Z 2 toy_ndev toy_addr toy_good toy_w0 /\ steps Z 2 toy_react toy_spont toy_allowed toy_w0 w /\ quiescent Z w /\
+  toy_addr (st Z w 0%nat) 0%nat = 30 /\ toy_addr (st Z w 1%nat) 0%nat = 254.
+Proof.
+  eexists. split; [|split; [|split; [|split]]].
+  - split; [intros; exact I|split; [|reflexivity]]. intros i k _. unfold toy_addr, toy_w0, operational. cbn. lia.
+  - eapply steps_first; [apply (Act Z 2 toy_react toy_spont toy_allowed 0%nat CStart toy_w0); [lia|exact I]|].
+    eapply steps_first; [apply (Act Z 2 toy_react toy_spont toy_allowed 1%nat CStart); [lia|exact I]|].
+    eapply steps_first; [apply (Deliver Z 2 toy_react toy_spont toy_allowed 0%nat {| cx := 30; cn := 1 |} [] []); [lia|reflexivity]|].
+    eapply steps_first; [apply (Deliver Z 2 toy_react toy_spont toy_allowed 1%nat {| cx := 30; cn := 0 |} [] [{| cx := 30; cn := 0 |}]); [lia|reflexivity]|].
+    eapply steps_first; [apply (Deliver Z 2 toy_react toy_spont toy_allowed 1%nat {| cx := 30; cn := 0 |} [] []); [lia|reflexivity]|].
+    apply steps_refl.
+  - intros [|[|i]]; reflexivity.
+  - reflexivity.
+  - reflexivity.
+Qed.
